@@ -147,6 +147,22 @@ CHECKS["C20"] = ("schedule exploration driven by generated inputs: a harness-own
             "W4 (subclass and base first used together) plus 2- and 3-preemption schedules with up to 3 threads are sampled. Every call must return its run-alone outcome; internal errors are violations.",
             "Trusted: the scheduler in vf/checks/c20.py (line granularity under the GIL; a thread blocked on a real lock is released after 60 ms without progress).", "3/C20")
 
+# small risky dimensions that are enumerated completely on every run, besides the random campaign
+GRIDS = {
+    "C01": "digit-count constraints x every spelling of a number, and contains-only rules inside unions",
+    "C02": "the int range grid and const/enum on rules without a source type",
+    "C03": "sized containers x colliding members, lax digit constraints x carrying numbers, unions x re-interpretable inputs x every spelling of the flags",
+    "C04": "every builtin target x extreme scalars, and awkward-but-legal declarations x inputs aimed at them",
+    "C09": "unions that only accept in their lenient stage, followed by other arguments",
+    "C12": "the (source, target) pair table",
+    "C15": "every constraint keyword and keyword combination x every subschema position x every combinator",
+    "C16": "all short register/use histories of two shapes",
+    "C17": "same-named classes in two modules x annotation styles x orders, subclasses of classes with pending references, local declarations, shared reference names",
+    "C18": "the shape x position x depth x max_depth grid, cyclic and DAG-shaped inputs",
+    "C19": "mutable-default forms, text inputs into unparametrised slots, and parse orders across fresh interpreters",
+    "C20": "all one-preemption schedules and the two-preemption schedules around the serialisation gate",
+}
+
 NOT_YET = "check not built yet in this round (planned, see DESIGN.md section 3)"
 
 
@@ -158,6 +174,8 @@ def main():
         pid = p["id"]
         if pid in CHECKS and os.path.exists(os.path.join(ROOT, "vf", "checks", pid.lower() + ".py")):
             tech, engine, text, note, ref = CHECKS[pid]
+            if pid in GRIDS:
+                tech += "; plus exhaustive enumeration on every run (seed independent) of " + GRIDS[pid]
             checks.append({
                 "property_id": pid,
                 "quick_cmd": f"/venv/bin/python -B -m vf {pid} --tier quick",
